@@ -33,6 +33,8 @@ type memFS struct {
 	ops     int64 // mutating operations so far
 	crashAt int64 // crash after this many mutating operations (0 = never)
 	badUse  []string
+	objs    map[string]value // documents of the typed json codec (restartstubs.go)
+	nextObj int
 }
 
 func (p *pathState) FS() *memFS {
